@@ -132,8 +132,11 @@ impl<'a, N: Normalizer> XmlSerializer<'a, N> {
                 r
             }
             Prefix(prefix_id, namespace_id) => {
-                // we don't want to output the xml prefix
-                if *namespace_id == self.xot.xml_namespace() {
+                // we don't want to output the built-in declaration of the
+                // xml prefix. Any other declaration that involves the xml
+                // namespace is written, as names may depend on it.
+                if *namespace_id == self.xot.xml_namespace() && *prefix_id == self.xot.xml_prefix()
+                {
                     return Ok(OutputToken {
                         space: false,
                         text: "".to_string(),
